@@ -28,7 +28,8 @@ Inductive ev : Type :=
 Inductive err : Type :=
 | ErrXStart (e : nat) | ErrXStop (e : nat)
 | ErrCStart (n : nat) | ErrCStop (n : nat)
-| ErrCfg (e : nat) | ErrReady (e : nat) | ErrNotReady (e : nat).
+| ErrCfg (e : nat) | ErrReady (e : nat) | ErrNotReady (e : nat)
+| ErrProvider (k : nat).   (* the configuration provider: 0 = its Shutdown, 1 = the close function of a retrieved configuration *)
 
 Definition mem (x : nat) (l : list nat) : bool := existsb (Nat.eqb x) l.
 
@@ -336,37 +337,53 @@ Definition collector_run_cx (g : graph) (x : extset) (o : orders) (f : faults) (
    A failed reload returns WITHOUT any further shutdown: the service concerned has been shut down already.
    Result: for every service that was built, in order, its event log and the errors it contributed
    to what Run returns. *)
-Record gen : Type := { gn_graph : graph; gn_ext : extset; gn_ord : orders; gn_faults : faults }.
+Record gen : Type := { gn_graph : graph; gn_ext : extset; gn_ord : orders; gn_faults : faults;
+                       gn_close_fails : bool  (* the close function of the configuration retrieved for this generation fails *) }.
 
 Definition gen_start (n : gen) := service_start (gn_graph n) (gn_ext n) (gn_ord n) (gn_faults n).
 Definition gen_shutdown (n : gen) := service_shutdown (gn_graph n) (gn_ext n) (gn_ord n) (gn_faults n).
 Definition gen_run (n : gen) := collector_run (gn_graph n) (gn_ext n) (gn_ord n) (gn_faults n).
 
+(* collector.go shutdown:  if err := col.configProvider.Shutdown(ctx); err != nil { errs = append(errs, ...) }
+                           if err := col.service.Shutdown(ctx); err != nil { errs = append(errs, ...) }
+   Resolver.Shutdown closes the retrieved configuration (close function) and shuts the providers
+   down; whatever they answer, the service is shut down. [pf]: the provider's Shutdown fails. *)
+Definition provider_errs (pf : bool) (cur : gen) : list err :=
+  (if gn_close_fails cur then [ErrProvider 1] else []) ++ (if pf then [ErrProvider 0] else []).
+
+Definition collector_shutdown (pf : bool) (cur : gen) : list ev * list err :=
+  let '(ld, ed) := gen_shutdown cur in (ld, provider_errs pf cur ++ ed).
+
 (* [cur] is running (its Start produced [ls_cur] without error); [rest] = the configurations of
-   the reload events still to come, then a shutdown request *)
-Fixpoint reload_loop (cur : gen) (ls_cur : list ev) (rest : list gen) : list (list ev * list err) :=
+   the reload events still to come, then a stop request (Shutdown(), signal, asynchronous error,
+   cancelled context: all end in col.shutdown).
+   reloadConfiguration: the retiring service is shut down; then configProvider.Get re-resolves, which
+   first closes the previous retrieval: if that fails no new service is built and Run returns. *)
+Fixpoint reload_loop (pf : bool) (cur : gen) (ls_cur : list ev) (rest : list gen) : list (list ev * list err) :=
   match rest with
-  | [] => let '(ld, ed) := gen_shutdown cur in [(ls_cur ++ ld, ed)]
+  | [] => let '(ld, ed) := collector_shutdown pf cur in [(ls_cur ++ ld, ed)]
   | nxt :: rest' =>
       let '(ld, ed) := gen_shutdown cur in
       match ed with
       | _ :: _ => [(ls_cur ++ ld, ed)]
       | [] =>
+          if gn_close_fails cur then [(ls_cur ++ ld, [ErrProvider 1])]
+          else
           let '(ls, es) := gen_start nxt in
           match es with
           | _ :: _ => let '(ld2, ed2) := gen_shutdown nxt in [(ls_cur ++ ld, []); (ls ++ ld2, es ++ ed2)]
-          | [] => (ls_cur ++ ld, []) :: reload_loop nxt ls rest'
+          | [] => (ls_cur ++ ld, []) :: reload_loop pf nxt ls rest'
           end
       end
   end.
 
-Definition collector_run_reload (gens : list gen) : list (list ev * list err) :=
+Definition collector_run_reload (pf : bool) (gens : list gen) : list (list ev * list err) :=
   match gens with
   | [] => []
   | g0 :: rest =>
       let '(ls, es) := gen_start g0 in
       match es with
       | _ :: _ => let '(ld, ed) := gen_shutdown g0 in [(ls ++ ld, es ++ ed)]
-      | [] => reload_loop g0 ls rest
+      | [] => reload_loop pf g0 ls rest
       end
   end.
